@@ -1050,7 +1050,10 @@ func (t *FnTrans) globalPtr(full string, T types.Type) *Ptr {
 
 func (t *FnTrans) fnRef(f *ssa.Function) string {
 	n := q("fn$" + f.String())
-	t.declare(n, "Int")
+	if !t.declared[n] {
+		t.declare(n, "Int")
+		t.emit("(assert (> " + n + " 0))") // a declared function is not the nil function value
+	}
 	return n
 }
 
